@@ -38,6 +38,7 @@ import (
 	"github.com/sirupsen/logrus"
 	"github.com/spf13/viper"
 	"io/ioutil"
+	"math"
 	"net/url"
 	"os"
 	"path/filepath"
@@ -90,6 +91,11 @@ func (s *Service) NewRunNumber() (runNumber uint32, err error) {
 		var rn64 uint64
 		rn64, err = strconv.ParseUint(string(raw[:]), 10, 32)
 		if err != nil {
+			return
+		}
+		if rn64 >= math.MaxUint32 {
+			// incrementing would wrap around to 0 and hand out already used numbers again
+			err = errors.New("cannot increment run number: uint32 counter exhausted")
 			return
 		}
 		runNumber = uint32(rn64)
